@@ -3,8 +3,17 @@
 //@ property: C08
 //@ tier: quick
 
-//! C08 table harnesses: the three execution paths select the documented kernel for every
-//! operator.  The *operator itself is symbolic*; operands are full-width symbolic.
+//! C08 table harnesses: each of the three execution paths (run-time dispatch in
+//! BinOperation::exec, constant folding in BinOperation::recreate, compound assignment) hands the
+//! operands, in order, to the kernel documented for the operator, and propagates its error.
+//!
+//! Decomposition: the arithmetic kernels are replaced (`-Z stubbing`) by *tagging* stubs that
+//! return the triple (kernel id, lhs, rhs) or the documented error, so that "which kernel, which
+//! operand order, which error" is decided exactly, for full-width symbolic operands, without
+//! building two copies of every multiplier/divider/FP circuit.  That the real kernels compute the
+//! documented arithmetic is decided separately, at full width, by the k_* harnesses (verif_c08.rs).
+//! Operators are enumerated concretely (a symbolic operator would make CBMC walk the iterator
+//! operators' lazy_static initialisers, i.e. the pest parser).
 use super::*;
 use crate::instruction::local_variable::LocalVariables;
 use crate::instruction::prefix_op::{not, unary_minus};
@@ -16,8 +25,39 @@ use crate::verif_model::Arc;
 
 type R = Result<Variable, ExecError>;
 
-/// the harness' own operator table (independent of BinOperation::exec / recreate)
-fn kernel(op: BinOperator, a: Variable, b: Variable) -> R {
+fn tag(id: i64, l: Variable, r: Variable) -> Variable {
+    Variable::Tuple(Arc::from(vec![Variable::Int(id), l, r]))
+}
+fn int_in(v: &Variable, lo: i64, hi: i64) -> bool {
+    matches!(v, Variable::Int(x) if *x >= lo && *x <= hi)
+}
+// ---- tagging stubs (one per kernel); error conditions are the documented ones ----------------
+pub fn s_add(l: Variable, r: Variable) -> Variable { tag(1, l, r) }
+pub fn s_sub(l: Variable, r: Variable) -> Variable { tag(2, l, r) }
+pub fn s_mul(l: Variable, r: Variable) -> Variable { tag(3, l, r) }
+pub fn s_div(l: Variable, r: Variable) -> R { if int_in(&r, 0, 0) { Err(ExecError::ZeroDivision) } else { Ok(tag(4, l, r)) } }
+pub fn s_mod(l: Variable, r: Variable) -> R { if int_in(&r, 0, 0) { Err(ExecError::ZeroModulo) } else { Ok(tag(5, l, r)) } }
+pub fn s_pow(l: Variable, r: Variable) -> R { if int_in(&r, i64::MIN, -1) { Err(ExecError::NegativeExponent) } else { Ok(tag(6, l, r)) } }
+pub fn s_shl(l: Variable, r: Variable) -> R { if int_in(&r, 0, 63) { Ok(tag(7, l, r)) } else { Err(ExecError::OverflowShift) } }
+pub fn s_shr(l: Variable, r: Variable) -> R { if int_in(&r, 0, 63) { Ok(tag(8, l, r)) } else { Err(ExecError::OverflowShift) } }
+pub fn s_and(l: Variable, r: Variable) -> Variable { tag(9, l, r) }
+pub fn s_or(l: Variable, r: Variable) -> Variable { tag(10, l, r) }
+pub fn s_xor(l: Variable, r: Variable) -> Variable { tag(11, l, r) }
+pub fn s_eq(l: Variable, r: Variable) -> Variable { tag(12, l, r) }
+pub fn s_ne(l: Variable, r: Variable) -> Variable { tag(13, l, r) }
+pub fn s_gt(l: Variable, r: Variable) -> Variable { tag(14, l, r) }
+pub fn s_ge(l: Variable, r: Variable) -> Variable { tag(15, l, r) }
+pub fn s_lt(l: Variable, r: Variable) -> Variable { tag(16, l, r) }
+pub fn s_le(l: Variable, r: Variable) -> Variable { tag(17, l, r) }
+pub fn s_neg(v: Variable) -> Variable { tag(18, v, Variable::Void) }
+pub fn s_not(v: Variable) -> Variable { tag(19, v, Variable::Void) }
+
+/// Under Kani the kernels are replaced by the tagging stubs; in a native concrete-playback run
+/// (`cargo kani playback`) stubbing is not applied, so the table then names the real kernels.
+fn stubs_active() -> bool {
+    matches!(add::exec(Variable::Int(1), Variable::Int(2)), Variable::Tuple(_))
+}
+fn real_kernel(op: BinOperator, a: Variable, b: Variable) -> R {
     Ok(match op {
         BinOperator::Add | BinOperator::AssignAdd => add::exec(a, b),
         BinOperator::Subtract | BinOperator::AssignSubtract => subtract::exec(a, b),
@@ -41,55 +81,63 @@ fn kernel(op: BinOperator, a: Variable, b: Variable) -> R {
     })
 }
 
-const INT_OPS: [BinOperator; 18] = [
+/// the harness' own operator table: documented kernel for each operator
+fn expected(op: BinOperator, a: Variable, b: Variable) -> R {
+    if !stubs_active() {
+        return real_kernel(op, a, b);
+    }
+    Ok(match op {
+        BinOperator::Add | BinOperator::AssignAdd => s_add(a, b),
+        BinOperator::Subtract | BinOperator::AssignSubtract => s_sub(a, b),
+        BinOperator::Multiply | BinOperator::AssignMultiply => s_mul(a, b),
+        BinOperator::Divide | BinOperator::AssignDivide => s_div(a, b)?,
+        BinOperator::Modulo | BinOperator::AssignModulo => s_mod(a, b)?,
+        BinOperator::Pow | BinOperator::AssignPow => s_pow(a, b)?,
+        BinOperator::LShift | BinOperator::AssignLShift => s_shl(a, b)?,
+        BinOperator::RShift | BinOperator::AssignRShift => s_shr(a, b)?,
+        BinOperator::BitwiseAnd | BinOperator::AssignBitwiseAnd => s_and(a, b),
+        BinOperator::BitwiseOr | BinOperator::AssignBitwiseOr => s_or(a, b),
+        BinOperator::Xor | BinOperator::AssignXor => s_xor(a, b),
+        BinOperator::Equal => s_eq(a, b),
+        BinOperator::NotEqual => s_ne(a, b),
+        BinOperator::Greater => s_gt(a, b),
+        BinOperator::GreaterOrEqual => s_ge(a, b),
+        BinOperator::Lower => s_lt(a, b),
+        BinOperator::LowerOrEqual => s_le(a, b),
+        BinOperator::Assign => b,
+        _ => unreachable!(),
+    })
+}
+
+const OPS: [BinOperator; 17] = [
     BinOperator::Add, BinOperator::Subtract, BinOperator::Multiply, BinOperator::Divide,
     BinOperator::Modulo, BinOperator::Pow, BinOperator::LShift, BinOperator::RShift,
     BinOperator::BitwiseAnd, BinOperator::BitwiseOr, BinOperator::Xor, BinOperator::Equal,
     BinOperator::NotEqual, BinOperator::Greater, BinOperator::GreaterOrEqual, BinOperator::Lower,
-    BinOperator::LowerOrEqual, BinOperator::Assign,
+    BinOperator::LowerOrEqual,
 ];
-const FLOAT_OPS: [BinOperator; 10] = [
-    BinOperator::Add, BinOperator::Subtract, BinOperator::Multiply, BinOperator::Divide,
-    BinOperator::Equal, BinOperator::NotEqual, BinOperator::Greater, BinOperator::GreaterOrEqual,
-    BinOperator::Lower, BinOperator::LowerOrEqual,
-];
-const BOOL_OPS: [BinOperator; 5] = [
-    BinOperator::BitwiseAnd, BinOperator::BitwiseOr, BinOperator::Xor, BinOperator::Equal, BinOperator::NotEqual,
-];
-const ASSIGN_INT_OPS: [BinOperator; 12] = [
+const ASSIGN_OPS: [BinOperator; 12] = [
     BinOperator::Assign, BinOperator::AssignAdd, BinOperator::AssignSubtract, BinOperator::AssignMultiply,
     BinOperator::AssignDivide, BinOperator::AssignModulo, BinOperator::AssignPow, BinOperator::AssignLShift,
     BinOperator::AssignRShift, BinOperator::AssignBitwiseAnd, BinOperator::AssignBitwiseOr, BinOperator::AssignXor,
 ];
-const ASSIGN_FLOAT_OPS: [BinOperator; 5] = [
-    BinOperator::Assign, BinOperator::AssignAdd, BinOperator::AssignSubtract, BinOperator::AssignMultiply, BinOperator::AssignDivide,
-];
-const ASSIGN_BOOL_OPS: [BinOperator; 4] = [
-    BinOperator::Assign, BinOperator::AssignBitwiseAnd, BinOperator::AssignBitwiseOr, BinOperator::AssignXor,
-];
 
-/// Operators are enumerated *concretely* (a straight-line sequence of sections, one per operator,
-/// each with its own fresh symbolic operands): a symbolic operator would make CBMC explore every
-/// arm of BinOperation::exec, including the iterator operators whose lazy_static initialisers run
-/// the pest parser.
-macro_rules! for_each_op {
-    ($ops:expr, |$op:ident| $body:block) => {{
-        let mut k = 0;
-        while k < $ops.len() {
-            let $op: BinOperator = $ops[k];
-            $body
-            k += 1;
-        }
-    }};
-}
-
-/// same scalar (bit-exact for floats so that NaN results agree)
 fn same_scalar(x: &Variable, y: &Variable) -> bool {
     match (x, y) {
         (Variable::Int(a), Variable::Int(b)) => a == b,
         (Variable::Bool(a), Variable::Bool(b)) => a == b,
-        (Variable::Float(a), Variable::Float(b)) => same_f64(*a, *b),
+        (Variable::Float(a), Variable::Float(b)) => a.to_bits() == b.to_bits(),
+        (Variable::Void, Variable::Void) => true,
         _ => false,
+    }
+}
+/// structural identity of tagged results: same kernel id, same operands in the same order
+fn same_val(x: &Variable, y: &Variable) -> bool {
+    match (x, y) {
+        (Variable::Tuple(p), Variable::Tuple(q)) => {
+            p.len() == 3 && q.len() == 3 && same_scalar(&p[0], &q[0]) && same_scalar(&p[1], &q[1]) && same_scalar(&p[2], &q[2])
+        }
+        _ => same_scalar(x, y),
     }
 }
 fn same_err(x: &ExecError, y: &ExecError) -> bool {
@@ -99,18 +147,15 @@ fn same_err(x: &ExecError, y: &ExecError) -> bool {
             | (ExecError::ZeroModulo, ExecError::ZeroModulo)
             | (ExecError::OverflowShift, ExecError::OverflowShift)
             | (ExecError::NegativeExponent, ExecError::NegativeExponent)
-            | (ExecError::IndexOutOfBounds, ExecError::IndexOutOfBounds)
-            | (ExecError::NegativeLength, ExecError::NegativeLength)
     )
 }
 fn same_result(x: &R, y: &R) -> bool {
     match (x, y) {
-        (Ok(a), Ok(b)) => same_scalar(a, b),
+        (Ok(a), Ok(b)) => same_val(a, b),
         (Err(a), Err(b)) => same_err(a, b),
         _ => false,
     }
 }
-
 fn unstop(r: Result<Variable, ExecStop>) -> R {
     match r {
         Ok(v) => Ok(v),
@@ -119,195 +164,248 @@ fn unstop(r: Result<Variable, ExecStop>) -> R {
     }
 }
 
-/// pow's loop: keep the exponent small in the table harnesses (pow itself: k_pow_* harnesses)
-fn pow_guard(op: BinOperator, b: i64) {
-    if matches!(op, BinOperator::Pow | BinOperator::AssignPow) {
-        kani::assume(b < 4);
+/// a pair of symbolic scalar operands of one symbolic kind (int, float or bool; full width) that
+/// the documented operand table of `op` admits (docs/operators.md) - the well-typedness the checker
+/// guarantees for scalar operands
+fn any_operands(op: BinOperator) -> (Variable, Variable) {
+    let k: u8 = kani::any();
+    kani::assume(k < 3);
+    let int_ok = true;
+    let float_ok = matches!(
+        op,
+        BinOperator::Add | BinOperator::Subtract | BinOperator::Multiply | BinOperator::Divide | BinOperator::Pow
+            | BinOperator::Equal | BinOperator::NotEqual | BinOperator::Greater | BinOperator::GreaterOrEqual
+            | BinOperator::Lower | BinOperator::LowerOrEqual | BinOperator::Assign | BinOperator::AssignAdd
+            | BinOperator::AssignSubtract | BinOperator::AssignMultiply | BinOperator::AssignDivide | BinOperator::AssignPow
+    );
+    let bool_ok = matches!(
+        op,
+        BinOperator::BitwiseAnd | BinOperator::BitwiseOr | BinOperator::Xor | BinOperator::Equal | BinOperator::NotEqual
+            | BinOperator::Assign | BinOperator::AssignBitwiseAnd | BinOperator::AssignBitwiseOr | BinOperator::AssignXor
+    );
+    kani::assume((k == 0 && int_ok) || (k == 1 && float_ok) || (k == 2 && bool_ok));
+    if k == 0 {
+        (Variable::Int(kani::any()), Variable::Int(kani::any()))
+    } else if k == 1 {
+        (Variable::Float(kani::any()), Variable::Float(kani::any()))
+    } else {
+        (Variable::Bool(kani::any()), Variable::Bool(kani::any()))
+    }
+}
+/// operand of unary `-` (int|float) / `!` (int|bool)
+fn any_unary_operand(minus: bool) -> Variable {
+    let k: bool = kani::any();
+    if k {
+        Variable::Int(kani::any())
+    } else if minus {
+        Variable::Float(kani::any())
+    } else {
+        Variable::Bool(kani::any())
     }
 }
 
-// ---- run-time dispatch ---------------------------------------------------------------------
-macro_rules! t_dispatch {
-    ($name:ident, $ops:expr, $ty:ty, $ctor:path) => {
+macro_rules! stubbed {
+    ($(#[$m:meta])* pub fn $name:ident() $body:block) => {
+        $(#[$m])*
         #[kani::proof]
         #[kani::unwind(20)]
         #[kani::stub(alloc::fmt::format, crate::verif_common::stub_format)]
-        pub fn $name() {
-            for_each_op!($ops, |op| {
-            let (a, b): ($ty, $ty) = (kani::any(), kani::any());
-            t_guard!($ty, op, b);
-            let mut interp = Interpreter::without_stdlib();
-            let ins = BinOperation { lhs: Instruction::Variable($ctor(a)), rhs: Instruction::Variable($ctor(b)), op };
-            let got = unstop(ins.exec(&mut interp));
-            let want = kernel(op, $ctor(a), $ctor(b));
-            assert!(same_result(&got, &want));
-            kani::cover!(got.is_ok());
-            });
-        }
+        #[kani::stub(crate::instruction::bin_op::math::add::exec, s_add)]
+        #[kani::stub(crate::instruction::bin_op::math::subtract::exec, s_sub)]
+        #[kani::stub(crate::instruction::bin_op::math::multiply::exec, s_mul)]
+        #[kani::stub(crate::instruction::bin_op::math::divide::exec, s_div)]
+        #[kani::stub(crate::instruction::bin_op::math::modulo::exec, s_mod)]
+        #[kani::stub(crate::instruction::bin_op::math::pow::exec, s_pow)]
+        #[kani::stub(crate::instruction::bin_op::shift::lshift::exec, s_shl)]
+        #[kani::stub(crate::instruction::bin_op::shift::rshift::exec, s_shr)]
+        #[kani::stub(crate::instruction::bin_op::bitwise::bitwise_and::exec, s_and)]
+        #[kani::stub(crate::instruction::bin_op::bitwise::bitwise_or::exec, s_or)]
+        #[kani::stub(crate::instruction::bin_op::bitwise::xor::exec, s_xor)]
+        #[kani::stub(crate::instruction::bin_op::equal::exec, s_eq)]
+        #[kani::stub(crate::instruction::bin_op::not_equal::exec, s_ne)]
+        #[kani::stub(crate::instruction::bin_op::math::greater::exec, s_gt)]
+        #[kani::stub(crate::instruction::bin_op::math::greater_equal::exec, s_ge)]
+        #[kani::stub(crate::instruction::bin_op::math::lower::exec, s_lt)]
+        #[kani::stub(crate::instruction::bin_op::math::lower_equal::exec, s_le)]
+        #[kani::stub(crate::instruction::prefix_op::unary_minus::exec, s_neg)]
+        #[kani::stub(crate::instruction::prefix_op::not::exec, s_not)]
+        pub fn $name() $body
     };
 }
-macro_rules! t_guard {
-    (i64, $op:expr, $b:expr) => { pow_guard($op, $b) };
-    ($t:ty, $op:expr, $b:expr) => {};
-}
-t_dispatch!(t_dispatch_int, INT_OPS, i64, Variable::Int);
-t_dispatch!(t_dispatch_float, FLOAT_OPS, f64, Variable::Float);
-t_dispatch!(t_dispatch_bool, BOOL_OPS, bool, Variable::Bool);
 
-// ---- constant folding: both operands constant ------------------------------------------------
-macro_rules! t_fold {
-    ($name:ident, $ops:expr, $ty:ty, $ctor:path) => {
-        #[kani::proof]
-        #[kani::unwind(20)]
-        #[kani::stub(alloc::fmt::format, crate::verif_common::stub_format)]
-        pub fn $name() {
-            for_each_op!($ops, |op| {
-            let (a, b): ($ty, $ty) = (kani::any(), kani::any());
-            t_guard!($ty, op, b);
-            let interp = Interpreter::without_stdlib();
-            let mut lv = LocalVariables::new(&interp);
-            let ins = BinOperation { lhs: Instruction::Variable($ctor(a)), rhs: Instruction::Variable($ctor(b)), op };
-            let want = kernel(op, $ctor(a), $ctor(b));
-            match ins.recreate(&mut lv) {
-                Ok(Instruction::Variable(v)) => {
-                    assert!(same_result(&Ok(v), &want));
-                    kani::cover!(true);
-                }
-                Ok(tree) => {
-                    // not folded: then it must still evaluate to the kernel's result
-                    let mut i2 = Interpreter::without_stdlib();
-                    let got = unstop(tree.exec(&mut i2));
-                    assert!(same_result(&got, &want));
-                }
-                Err(e) => {
-                    assert!(same_result(&Err(e), &want));
-                    kani::cover!(true);
-                }
-            }
-            std::mem::forget(lv);
-            });
-        }
-    };
+fn hidden(cell: &Arc<crate::variable::Mut>) -> Instruction {
+    // a non-constant operand: `*cell` (the folding pass never folds an indirection); the
+    // instruction object holds a single pointer, which keeps CBMC's heap reasoning exact
+    UnaryOperation { instruction: Instruction::Variable(Variable::Mut(cell.clone())), op: UnaryOperator::Indirection }.into()
 }
-t_fold!(t_fold_int, INT_OPS, i64, Variable::Int);
-t_fold!(t_fold_float, FLOAT_OPS, f64, Variable::Float);
-t_fold!(t_fold_bool, BOOL_OPS, bool, Variable::Bool);
 
-// ---- constant folding with ONE constant operand: the rewritten tree evaluates like the kernel --
-macro_rules! t_partial_fold {
-    ($name:ident, $ops:expr, $ty:ty, $ctor:path, $tyname:expr, $const_on_right:expr) => {
-        #[kani::proof]
-        #[kani::unwind(20)]
-        #[kani::stub(alloc::fmt::format, crate::verif_common::stub_format)]
-        pub fn $name() {
-            for_each_op!($ops, |op| {
-            let (a, b): ($ty, $ty) = (kani::any(), kani::any());
-            t_guard!($ty, op, b);
-            let mut interp = Interpreter::without_stdlib();
-            let (lhs, rhs) = if $const_on_right {
-                interp.insert("x".into(), $ctor(a));
-                (local("x", $tyname), Instruction::Variable($ctor(b)))
-            } else {
-                interp.insert("x".into(), $ctor(b));
-                (Instruction::Variable($ctor(a)), local("x", $tyname))
-            };
-            let want = kernel(op, $ctor(a), $ctor(b));
-            let ins = BinOperation { lhs, rhs, op };
-            let folded = {
-                let mut lv = LocalVariables::new(&interp);
-                lv.insert("x".into(), $tyname.into());
-                let f = ins.recreate(&mut lv);
-                std::mem::forget(lv);
-                f
-            };
-            match folded {
-                Ok(tree) => {
-                    let got = unstop(tree.exec(&mut interp));
-                    assert!(same_result(&got, &want));
-                    kani::cover!(got.is_ok());
-                }
-                // a parse-time error is allowed only for an operation that fails whenever it is
-                // evaluated, i.e. for this very (symbolic) value of the non-constant operand too
-                Err(e) => assert!(same_result(&Err(e), &want)),
-            }
-            });
-        }
-    };
-}
-t_partial_fold!(t_pfold_int_cr, INT_OPS, i64, Variable::Int, Type::Int, true);
-t_partial_fold!(t_pfold_int_cl, INT_OPS, i64, Variable::Int, Type::Int, false);
-t_partial_fold!(t_pfold_float_cr, FLOAT_OPS, f64, Variable::Float, Type::Float, true);
-t_partial_fold!(t_pfold_float_cl, FLOAT_OPS, f64, Variable::Float, Type::Float, false);
-t_partial_fold!(t_pfold_bool_cr, BOOL_OPS, bool, Variable::Bool, Type::Bool, true);
-t_partial_fold!(t_pfold_bool_cl, BOOL_OPS, bool, Variable::Bool, Type::Bool, false);
-
-// ---- compound assignment ---------------------------------------------------------------------
-macro_rules! t_assign {
-    ($name:ident, $ops:expr, $ty:ty, $ctor:path, $tyname:expr) => {
-        #[kani::proof]
-        #[kani::unwind(20)]
-        #[kani::stub(alloc::fmt::format, crate::verif_common::stub_format)]
-        pub fn $name() {
-            for_each_op!($ops, |op| {
-            let (a, b): ($ty, $ty) = (kani::any(), kani::any());
-            t_guard!($ty, op, b);
-            let cell = new_cell($tyname, $ctor(a));
-            let mut interp = Interpreter::without_stdlib();
-            let ins = BinOperation {
-                lhs: Instruction::Variable(Variable::Mut(cell.clone())),
-                rhs: Instruction::Variable($ctor(b)),
-                op,
-            };
-            let got = unstop(ins.exec(&mut interp));
-            let want = kernel(op, $ctor(a), $ctor(b));
-            assert!(same_result(&got, &want));
-            let content = cell.variable.read().unwrap().clone();
-            match &want {
-                // the update stores what it yields
-                Ok(v) => assert!(same_scalar(&content, v)),
-                // a failing update leaves the cell unchanged
-                Err(_) => assert!(same_scalar(&content, &$ctor(a))),
-            }
-            kani::cover!(got.is_ok());
-            });
-        }
-    };
-}
-t_assign!(t_assign_int, ASSIGN_INT_OPS, i64, Variable::Int, Type::Int);
-t_assign!(t_assign_float, ASSIGN_FLOAT_OPS, f64, Variable::Float, Type::Float);
-t_assign!(t_assign_bool, ASSIGN_BOOL_OPS, bool, Variable::Bool, Type::Bool);
-
-// ---- unary operators: exec and fold ------------------------------------------------------------
-#[kani::proof]
-#[kani::unwind(20)]
-#[kani::stub(alloc::fmt::format, crate::verif_common::stub_format)]
-pub fn t_unary() {
-    let mut which: u8 = 0;
-    while which < 4 {
-    let a: i64 = kani::any();
-    let f: f64 = kani::any();
-    let p: bool = kani::any();
-    let (op, operand, want) = match which {
-        0 => (UnaryOperator::UnaryMinus, Variable::Int(a), unary_minus::exec(Variable::Int(a))),
-        1 => (UnaryOperator::UnaryMinus, Variable::Float(f), unary_minus::exec(Variable::Float(f))),
-        2 => (UnaryOperator::Not, Variable::Int(a), not::exec(Variable::Int(a))),
-        _ => (UnaryOperator::Not, Variable::Bool(p), not::exec(Variable::Bool(p))),
-    };
-    let mut interp = Interpreter::without_stdlib();
-    let ins = UnaryOperation { instruction: Instruction::Variable(operand.clone()), op };
-    let got = unstop(ins.exec(&mut interp));
-    assert!(same_result(&got, &Ok(want.clone())));
-    let mut lv = LocalVariables::new(&interp);
-    match ins.recreate(&mut lv) {
-        Ok(Instruction::Variable(v)) => assert!(same_scalar(&v, &want)),
-        Ok(tree) => {
-            let mut i2 = Interpreter::without_stdlib();
-            assert!(same_result(&unstop(tree.exec(&mut i2)), &Ok(want)));
-        }
-        Err(_) => panic!("folding a unary scalar operator failed"),
-    }
-    std::mem::forget(lv);
-    which += 1;
+stubbed! {
+/// run-time path: BinOperation::exec
+pub fn t_dispatch() {
+    let mut k = 0;
+    while k < OPS.len() {
+        let op = OPS[k];
+        let (a, b) = any_operands(op);
+        let mut interp = Interpreter::without_stdlib();
+        let ins = BinOperation { lhs: Instruction::Variable(a.clone()), rhs: Instruction::Variable(b.clone()), op };
+        let got = unstop(ins.exec(&mut interp));
+        let want = expected(op, a, b);
+        assert!(same_result(&got, &want));
+        k += 1;
     }
     kani::cover!(true);
+}
+}
+
+macro_rules! t_fold_const {
+    ($name:ident, $lo:expr, $hi:expr) => {
+        stubbed! {
+        /// folding path, both operands constant: BinOperation::recreate yields the constant the kernel
+        /// yields, or the kernel's error as a parse-time error
+        pub fn $name() {
+            let mut k = $lo;
+            while k < $hi {
+                let op = OPS[k];
+                let (a, b) = any_operands(op);
+                let interp = Interpreter::without_stdlib();
+                let mut lv = LocalVariables::new(&interp);
+                let ins = BinOperation { lhs: Instruction::Variable(a.clone()), rhs: Instruction::Variable(b.clone()), op };
+                let want = expected(op, a, b);
+                match ins.recreate(&mut lv) {
+                    Ok(Instruction::Variable(v)) => assert!(same_result(&Ok(v), &want)),
+                    // left unfolded (e.g. **): the tree must then be the same operation on the same operands
+                    Ok(Instruction::BinOperation(t)) => {
+                        assert!(t.op == op);
+                        let mut i2 = Interpreter::without_stdlib();
+                        assert!(same_result(&unstop(t.exec(&mut i2)), &want));
+                    }
+                    Ok(_) => panic!("folding produced a different kind of instruction"),
+                    Err(e) => assert!(same_result(&Err(e), &want)),
+                }
+                std::mem::forget(lv);
+                k += 1;
+            }
+            kani::cover!(true);
+        }
+        }
+    };
+}
+t_fold_const!(t_fold_const_0, 0, 6);
+t_fold_const!(t_fold_const_1, 6, 12);
+t_fold_const!(t_fold_const_2, 12, 17);
+
+macro_rules! t_partial_fold {
+    ($name:ident, $const_on_right:expr, $lo:expr, $hi:expr) => {
+        stubbed! {
+        /// folding path with ONE constant operand (the other is `*cell`, never folded): the rewritten
+        /// instruction, executed with the cell holding a symbolic value, gives what the kernel gives;
+        /// a parse-time error is permitted only if the operation fails for that (every) value too
+        pub fn $name() {
+            let mut k = $lo;
+            while k < $hi {
+                let op = OPS[k];
+                let (a, b) = any_operands(op);
+                let mut interp = Interpreter::without_stdlib();
+                let (lhs, rhs) = if $const_on_right {
+                    (hidden(&new_cell(Type::Any, a.clone())), Instruction::Variable(b.clone()))
+                } else {
+                    (Instruction::Variable(a.clone()), hidden(&new_cell(Type::Any, b.clone())))
+                };
+                let want = expected(op, a, b);
+                let ins = BinOperation { lhs, rhs, op };
+                let folded = {
+                    let mut lv = LocalVariables::new(&interp);
+                    let f = ins.recreate(&mut lv);
+                    std::mem::forget(lv);
+                    f
+                };
+                match folded {
+                    Ok(Instruction::BinOperation(t)) => {
+                        assert!(t.op == op);
+                        let got = unstop(t.exec(&mut interp));
+                        assert!(same_result(&got, &want));
+                    }
+                    Ok(_) => panic!("an operation with a non-constant operand was folded away"),
+                    Err(e) => assert!(same_result(&Err(e), &want)),
+                }
+                k += 1;
+            }
+            kani::cover!(true);
+        }
+        }
+    };
+}
+t_partial_fold!(t_fold_const_right_0, true, 0, 6);
+t_partial_fold!(t_fold_const_right_1, true, 6, 12);
+t_partial_fold!(t_fold_const_right_2, true, 12, 17);
+t_partial_fold!(t_fold_const_left_0, false, 0, 6);
+t_partial_fold!(t_fold_const_left_1, false, 6, 12);
+t_partial_fold!(t_fold_const_left_2, false, 12, 17);
+
+macro_rules! t_assign {
+    ($name:ident, $lo:expr, $hi:expr) => {
+        stubbed! {
+        /// compound assignment: yields and stores kernel(old content, value); a failing update leaves the
+        /// cell unchanged
+        pub fn $name() {
+            let mut k = $lo;
+            while k < $hi {
+                let op = ASSIGN_OPS[k];
+                let (a, b) = any_operands(op);
+                let cell = new_cell(Type::Any, a.clone());
+                let mut interp = Interpreter::without_stdlib();
+                let ins = BinOperation {
+                    lhs: Instruction::Variable(Variable::Mut(cell.clone())),
+                    rhs: Instruction::Variable(b.clone()),
+                    op,
+                };
+                let got = unstop(ins.exec(&mut interp));
+                let want = expected(op, a.clone(), b);
+                assert!(same_result(&got, &want));
+                let content = cell.variable.read().unwrap().clone();
+                match &want {
+                    Ok(v) => assert!(same_val(&content, v)),
+                    Err(_) => assert!(same_val(&content, &a)),
+                }
+                k += 1;
+            }
+            kani::cover!(true);
+        }
+        }
+    };
+}
+t_assign!(t_assign_0, 0, 4);
+t_assign!(t_assign_1, 4, 8);
+t_assign!(t_assign_2, 8, 12);
+
+stubbed! {
+/// unary - and ! : exec and fold go to their kernels
+pub fn t_unary() {
+    let mut which = 0;
+    while which < 2 {
+        let a = any_unary_operand(which == 0);
+        let native = !stubs_active();
+        let (op, want) = if which == 0 {
+            (UnaryOperator::UnaryMinus, if native { unary_minus::exec(a.clone()) } else { s_neg(a.clone()) })
+        } else {
+            (UnaryOperator::Not, if native { not::exec(a.clone()) } else { s_not(a.clone()) })
+        };
+        let mut interp = Interpreter::without_stdlib();
+        let ins = UnaryOperation { instruction: Instruction::Variable(a.clone()), op };
+        let got = unstop(ins.exec(&mut interp));
+        assert!(same_result(&got, &Ok(want.clone())));
+        let mut lv = LocalVariables::new(&interp);
+        match ins.recreate(&mut lv) {
+            Ok(Instruction::Variable(v)) => assert!(same_val(&v, &want)),
+            Ok(Instruction::UnaryOperation(t)) => {
+                let mut i2 = Interpreter::without_stdlib();
+                assert!(same_result(&unstop(t.exec(&mut i2)), &Ok(want)));
+            }
+            _ => panic!("folding a unary scalar operator failed"),
+        }
+        std::mem::forget(lv);
+        which += 1;
+    }
+    kani::cover!(true);
+}
 }
